@@ -163,7 +163,7 @@ def reach(db, roots, boundary=None, maxfn=5000):
             if e.k not in ('call', 'construct'):
                 continue
             if e.get('callee_key'):
-                c = db.get(e['callee_key'], e.get('callee_inst'))
+                c = db.resolve(f, e['callee_key'], e.get('callee_inst'))
                 if c is not None and not (boundary and boundary(c)):
                     work.append(c)
                 elif c is not None:
@@ -175,9 +175,7 @@ def reach(db, roots, boundary=None, maxfn=5000):
                 if idx is not None:
                     for a in e.get('args', []):
                         if (a.get('path') or '').startswith('lambda@'):
-                            c = db.get(a['path'][7:])
-                            if c is not None:
-                                work.append(c)
+                            work.extend(db.closure_instances(f, a['path'][7:]))
             else:
                 indirect.append((f, e))
     return list(seen.values()), ext, indirect
@@ -216,7 +214,7 @@ def interval_count(db, f, pred, cache=None, stack=(), tracer=None, follow=None):
             if it.k in ('call', 'construct'):
                 c = None
                 if it.get('callee_key'):
-                    c = db.get(it['callee_key'], it.get('callee_inst'))
+                    c = db.resolve(f, it['callee_key'], it.get('callee_inst'))
                 elif STD_IMMEDIATE.get(norm(it.get('callee'))) is not None:
                     for ar in it.get('args', []):
                         if (ar.get('opath') or ar.get('path') or '').startswith('lambda@'):
